@@ -53,7 +53,7 @@ def oracle_value(db, d, rho, op, h0, tau):
 
 
 def setup(db, classes):
-    hooks = sm.SquidsHooks(NSUN, order=sm.OrderOracle(classes))
+    hooks = sm.SquidsHooks(NSUN, order=sm.OrderOracle(classes, witness=getattr(classes, 'witness', None)))
     this, hooks, it = sm.new_solver(db, NX, NSUN, NRHOS, NSC, hooks=hooks)
     xv = this.value.fields['x'].value
     for k in range(NX):
@@ -78,11 +78,32 @@ def op_cell():
     return make_suv('op', NSUN, 'o')
 
 
+class Classes(list):
+    """equivalence classes of the order, optionally with a concrete instance (symbol -> number)"""
+    witness = None
+
+
+NODE_VALUES = [1.5, 2.75, 7.0, 11.0, 12.5, 20.0]
+
+
+def with_witness(classes, q):
+    from mpmath import mpf
+    c = Classes(classes)
+    c.witness = {'X%d' % k: mpf(NODE_VALUES[k]) for k in range(NX)}
+    c.witness['Q'] = q
+    return c
+
+
 def positions():
-    """order relations of the query Q to the nodes: (label, classes, kind, admissible brackets)"""
+    """order relations of the query Q to the nodes: (label, classes, kind, admissible brackets).  The positions outside
+    the node range come in two concrete flavours: one unit in the last place beyond the end node, and far beyond it."""
+    from mpmath import mpf
     out = []
     nodes = ['X%d' % k for k in range(NX)]
-    out.append(('below', [['Q']] + [[n] for n in nodes], 'outside', []))
+    lo, hi = mpf(NODE_VALUES[0]), mpf(NODE_VALUES[NX - 1])
+    below = [['Q']] + [[n] for n in nodes]
+    out.append(('below (one ulp)', with_witness(below, lo * (1 - mpf(2) ** -53)), 'outside', []))
+    out.append(('below', with_witness(below, lo - 1), 'outside', []))
     for k in range(NX):
         cl = [[n] for n in nodes]
         cl[k] = [nodes[k], 'Q']
@@ -91,7 +112,9 @@ def positions():
         if k < NX - 1:
             cl2 = [[n] for n in nodes[:k + 1]] + [['Q']] + [[n] for n in nodes[k + 1:]]
             out.append(('between %d and %d' % (k, k + 1), cl2, 'inside', [k]))
-    out.append(('above', [[n] for n in nodes] + [['Q']], 'outside', []))
+    above = [[n] for n in nodes] + [['Q']]
+    out.append(('above (one ulp)', with_witness(above, hi * (1 + mpf(2) ** -52)), 'outside', []))
+    out.append(('above', with_witness(above, hi + 1), 'outside', []))
     return out
 
 
@@ -239,3 +262,10 @@ def run(db, rep, tier):
     rep.declined += ['numerical value of the trace (rounding)']
     check_node_forms(db, rep)
     check_interpolating(db, rep)
+    # the queries turn the stored state back by t - t_ini: the clock must hold the elapsed time (its handling in
+    # Evolve is C10's rule D.clock, repeated here), and the averaging overloads must use, in every dimension, the same
+    # pair phases as the plain table (C11's rules A.avg.term / A.avg.thresh, repeated here)
+    import c10
+    import c11
+    c10.check_clock(db, rep)
+    c11.check_avg(db, rep)
